@@ -228,6 +228,8 @@ func HarnessCrash() {
 		vrt.Assert("C03.clean-reopen-ok", err == nil)
 		if err == nil {
 			checkAgainst("C03.after-reopen", e.L, m)
+			// sealed segments are now read through their on-disk index
+			probe("C01.after-reopen", e.L, m, vrt.U64("probe2"))
 		}
 	}
 	vrt.Reach("crash-verified")
